@@ -87,8 +87,18 @@ impl<T> Definitions<T> {
 
         if !self.inner.contains_key(&key) {
             self.inner.insert(key.clone(), None);
-            let schema = build_schema(self)?;
-            self.inner.insert(key, Some(schema));
+
+            match build_schema(self) {
+                Ok(schema) => {
+                    self.inner.insert(key, Some(schema));
+                }
+                // Do not leave the mark behind: it would read as an (empty) definition of the
+                // type, for whoever carries on after the error.
+                Err(e) => {
+                    self.inner.remove(&key);
+                    return Err(e);
+                }
+            }
         }
 
         Ok(reference)
